@@ -290,3 +290,109 @@ def g_constants(repo, tier):
                             "symbolic mode: numeric literals assigned at the top level of "
                             "_physical_ratios.py are free positive symbols; everything else in the two "
                             "table modules is executed as written"]}
+
+
+# ------------------------------------------------------------------------------ C01 / C04
+def ufunc_registry(repo):
+    """{ufunc name: rule name} read from the class body of unyt_array (dict literal
+    `_ufunc_registry` plus the `_ufunc_registry[x] = rule` statements) and the tuple of rules in
+    `if unit_operator in (...)` of __array_ufunc__ -- from the AST, nothing imported"""
+    import ast
+    path = os.path.join(repo, "unyt", "array.py")
+    tree = ast.parse(open(path).read())
+    alias = {}
+    for st in tree.body:
+        if isinstance(st, ast.ImportFrom) and st.module == "numpy":
+            for a in st.names:
+                alias[a.asname or a.name] = a.name
+    reg, checked = {}, None
+    for node in ast.walk(tree):
+        if isinstance(node, ast.ClassDef) and node.name == "unyt_array":
+            for st in ast.walk(node):
+                if isinstance(st, ast.Assign) and isinstance(st.targets[0], ast.Name) and \
+                        st.targets[0].id == "_ufunc_registry" and isinstance(st.value, ast.Dict):
+                    for k, v in zip(st.value.keys, st.value.values):
+                        reg[alias.get(k.id, k.id)] = v.id
+                elif isinstance(st, ast.Assign) and isinstance(st.targets[0], ast.Subscript) and \
+                        getattr(st.targets[0].value, "id", None) == "_ufunc_registry":
+                    k = st.targets[0].slice
+                    reg[alias.get(k.id, k.id)] = st.value.id
+                elif isinstance(st, ast.FunctionDef) and st.name == "__array_ufunc__":
+                    for c in ast.walk(st):
+                        if isinstance(c, ast.Compare) and isinstance(c.left, ast.Name) and \
+                                c.left.id == "unit_operator" and isinstance(c.ops[0], ast.In) and \
+                                isinstance(c.comparators[0], ast.Tuple):
+                            names = {e.id for e in c.comparators[0].elts}
+                            if "_preserve_units" in names or checked is None:
+                                checked = names
+    return reg, checked
+
+
+REPLAY_UFUNC_CLASS = '''import sys, numpy as np, unyt
+from unyt import km, s
+try:
+    r = np.%(uf)s(7 * km, 2 * s)
+except Exception as e:
+    print("refused:", type(e).__name__); sys.exit(0)
+print("np.%(uf)s(7 km, 2 s) returned", r); sys.exit(1)
+'''
+
+
+def g_ufunc_classes(repo, tier):
+    """C01.G1 / C04.G: every commensurability-requiring ufunc is mapped to a unit rule for
+    which the dispatcher runs its dimension check; the rule table matches the classification
+    the statements imply; every classified ufunc is present in the table."""
+    from spec import ufunc_classes as UC
+    reg, checked = ufunc_registry(repo)
+    total = ok = 0
+    fails, samples = [], []
+
+    allkeys = []
+
+    def ob(key, cond, what, replay=None):
+        nonlocal total, ok
+        total += 1
+        allkeys.append((key, bool(cond)))
+        if cond:
+            ok += 1
+            if len(samples) < 4:
+                samples.append({"obligation": key})
+        else:
+            fails.append({"key": key, "what": what, "replay": replay})
+
+    ob("C01.G1[checked-rule-set]", checked is not None and UC.CHECKED_RULES <= checked,
+       "the dispatcher's dimension check covers rules %s, the statement needs %s" % (
+           sorted(checked or []), sorted(UC.CHECKED_RULES)))
+    for uf in sorted(UC.COMMENSURABLE):
+        rule = reg.get(uf)
+        ob("C01.G1[%s]" % uf, rule in UC.CHECKED_RULES and (checked is None or rule in checked),
+           "ufunc %s needs commensurable operands but is mapped to the rule %s, for which the "
+           "dispatcher performs no dimension check" % (uf, rule),
+           REPLAY_UFUNC_CLASS % {"uf": uf})
+    for uf, rule in sorted(UC.MULTIPLICATIVE.items()):
+        ob("C04.G[%s]" % uf, reg.get(uf) == rule, "ufunc %s mapped to %s, dimensional analysis "
+           "needs %s" % (uf, reg.get(uf), rule))
+    for uf, rule in sorted(UC.POWER_RULES.items()):
+        ob("C04.G[%s]" % uf, reg.get(uf) == rule, "ufunc %s mapped to %s, needs %s" % (uf, reg.get(uf), rule))
+    for uf in sorted(UC.PASSTHROUGH_1):
+        ob("C04.G[%s]" % uf, reg.get(uf) == "_passthrough_unit", "ufunc %s mapped to %s, the result "
+           "must keep the operand's unit" % (uf, reg.get(uf)))
+    for uf in sorted(UC.UNIT_IGNORING):
+        ob("C04.G[%s]" % uf, reg.get(uf) == "_return_without_unit", "ufunc %s mapped to %s; it is "
+           "documented to return bare numbers" % (uf, reg.get(uf)))
+    for uf in sorted(UC.BITWISE_REFUSED):
+        ob("C04.G[%s]" % uf, reg.get(uf) in ("_bitop_units", "_invert_units"),
+           "bit-twiddling ufunc %s mapped to %s" % (uf, reg.get(uf)))
+    return {"total": total, "ok": ok, "failures": fails, "samples": samples, "keys": allkeys,
+            "assumptions": ["spec/ufunc_classes.py (classification written from the statements)"]}
+
+
+def _filtered(fn, prefix):
+    def g(repo, tier):
+        r = fn(repo, tier)
+        keys = [(k, c) for k, c in r["keys"] if k.startswith(prefix)]
+        return dict(r, failures=[f for f in r["failures"] if f["key"].startswith(prefix)],
+                    total=len(keys), ok=sum(1 for _, c in keys if c),
+                    samples=[{"obligation": k} for k, c in keys[:3]])
+    g.__name__ = fn.__name__ + "[" + prefix + "]"
+    return g
